@@ -5,6 +5,7 @@ import (
 	"strings"
 
 	"github.com/casbin/casbin/v2"
+	"github.com/casbin/casbin/v2/rbac"
 
 	"verif/harness/internal/mem"
 )
@@ -260,6 +261,7 @@ func runC04(c *Ctx) {
 	cfg2.Depth = 3
 	enumerate(c, cfg2)
 
+	c04DomainFnReplacedAfterQuery(c)
 	// conditional role managers (not modelled): no stale decision after any change either
 	condFamily(c, 3, "on a conditional role definition a decision went stale: the live enforcer decides differently from a fresh one given the listed rules")
 	n := 100
@@ -270,4 +272,53 @@ func runC04(c *Ctx) {
 	randomHistories(c, mk("rbac-pattern-random", ms, alpha, probes, reqs, opts), n, 5, 30)
 	randomHistories(c, mk("domain-pattern-random", msD, alphaD, probesD, reqsD, optsD), n, 5, 30)
 	c.Exhaustive = true
+}
+
+// c04DomainFnReplacedAfterQuery: rules only in a pattern domain, a concrete domain that was merely asked about
+// (never written), then the domain matching function is replaced: the live enforcer decides like a fresh one
+// given the same rules and the same registrations, whatever was asked before.  (Concrete domains with rules of
+// their own are the subject of finding D39 and stay out.)  Implementation only.
+func c04DomainFnReplacedAfterQuery(c *Ctx) {
+	text := `
+[request_definition]
+r = sub, dom, obj, act
+[policy_definition]
+p = sub, dom, obj, act
+[role_definition]
+g = _, _, _
+[policy_effect]
+e = some(where (p.eft == allow))
+[matchers]
+m = g(r.sub, p.sub, r.dom) && keyMatch(r.dom, p.dom) && r.obj == p.obj && r.act == p.act
+`
+	strict := func(a, b string) bool { return a == b }
+	fns := map[string]rbac.MatchingFunc{"keyMatch2": matchFns["keyMatch2"], "strict": strict, "keyMatch": matchFns["keyMatch"]}
+	build := func(ask bool, second string) *casbin.Enforcer {
+		e, err := casbin.NewEnforcer(mustModel(text))
+		if err != nil {
+			panic(err)
+		}
+		_, _ = e.AddGroupingPolicy("alice", "admin", "tenant*")
+		_, _ = e.AddPolicy("admin", "tenant*", "data", "read")
+		if ask {
+			_, _ = e.Enforce("alice", "tenant1", "data", "read")
+			_, _ = e.Enforce("bob", "tenant1", "data", "read")
+		}
+		e.AddNamedDomainMatchingFunc("g", second, fns[second])
+		return e
+	}
+	for _, second := range []string{"strict", "keyMatch2", "keyMatch"} {
+		live, fresh := build(true, second), build(false, second)
+		for _, dom := range []string{"tenant1", "tenant2", "tenant*"} {
+			for _, u := range []string{"alice", "bob", "admin"} {
+				a, errA := live.Enforce(u, dom, "data", "read")
+				b, errB := fresh.Enforce(u, dom, "data", "read")
+				c.Evals++
+				if a != b || (errA == nil) != (errB == nil) {
+					c.Direct("an earlier Enforce call influences a decision after the domain matching function was replaced", fmt.Sprintf("g alice admin tenant*; p admin tenant* data read; domain matching function replaced by %s; Enforce(%s, %s, data, read): asked-before enforcer %v, fresh enforcer %v", second, u, dom, a, b))
+				}
+			}
+		}
+		c.Count("domain_fn_replaced_after_query_cases", 1)
+	}
 }
